@@ -1031,6 +1031,78 @@ theorem skipBroken_spec {inp : Input} (hw : InputWF inp) (can : Int → Bool) :
         show e0 ≤ NOff inp (c.fetch inp).1
         omega
 
+/-- `recoverFromError` replaces the entries above position `pos` (and the skipped tokens) by one
+`error` entry; `s` is the offset of the token at which the error was detected. -/
+theorem core_recover {N s : Nat} {st : List Entry} {evs : List TreeBuilder.Ev} (hc : Core s st evs)
+    (e2 : Nat) (hse : s ≤ e2) (he2 : e2 ≤ N) (pos : Nat) (below : Entry)
+    (hpos : st.reverse[pos - 1]? = some below) (sym q : Int) :
+    Core N (⟨sym,
+        (if pos < st.length then
+            ((Option.map (fun x => x.off) st.reverse[pos]?).getD s,
+              if s = e2 then (Option.map (fun x => x.endo) st.head?).getD e2 else e2)
+          else (s, e2)).fst,
+        (if pos < st.length then
+            ((Option.map (fun x => x.off) st.reverse[pos]?).getD s,
+              if s = e2 then (Option.map (fun x => x.endo) st.head?).getD e2 else e2)
+          else (s, e2)).snd, q⟩ :: (st.reverse.take pos).reverse) evs := by
+  have hsN : s ≤ N := by omega
+  have hlen : pos - 1 < st.length := by
+    have := (List.getElem?_eq_some_iff.1 hpos).1
+    simpa using this
+  rw [List.take_reverse, List.reverse_reverse]
+  by_cases hp : pos < st.length
+  · simp only [hp, if_true]
+    -- the lowest popped entry
+    have hk : st.length - pos - 1 < st.length := by omega
+    have hA : st.reverse[pos]? = some st[st.length - pos - 1] := by
+      rw [List.getElem?_reverse hp]
+      have : st.length - 1 - pos = st.length - pos - 1 := by omega
+      rw [this]
+      exact List.getElem?_eq_getElem hk
+    have htop : st.head? = some st[0] := by
+      rw [List.head?_eq_getElem?]; exact List.getElem?_eq_getElem (by omega)
+    rw [hA, htop]
+    simp only [Option.map_some, Option.getD_some]
+    have hAmem : st[st.length - pos - 1] ∈ st.take (st.length - pos) := by
+      have : (st.take (st.length - pos))[st.length - pos - 1]? = some st[st.length - pos - 1] := by
+        rw [List.getElem?_take]; simp only [show st.length - pos - 1 < st.length - pos by omega, if_true]
+        exact List.getElem?_eq_getElem hk
+      exact List.mem_of_getElem? this
+    have hAst : st[st.length - pos - 1] ∈ st := List.getElem_mem hk
+    have htopst : st[0] ∈ st := List.getElem_mem (by omega)
+    have hchain := hc.chain
+    have hcross : ∀ e ∈ st.drop (st.length - pos), e.endo ≤ st[st.length - pos - 1].off := by
+      have h2 := hchain
+      rw [← List.take_append_drop (st.length - pos) st, List.pairwise_append] at h2
+      intro e he
+      exact h2.2.2 _ hAmem e he
+    have hAtop : st[st.length - pos - 1].off ≤ st[0].endo := by
+      have h1 := (hc.ent _ hAst).1
+      have h2 := (hc.ent _ htopst).1
+      rcases Nat.eq_zero_or_pos (st.length - pos - 1) with h0 | h0
+      · simp only [h0]; omega
+      · have := (List.pairwise_iff_getElem.1 hchain) 0 (st.length - pos - 1) (by omega) hk h0
+        omega
+    have hAe := hc.ent _ hAst
+    have htope := hc.ent _ htopst
+    refine (hc.mono hsN).reduce (st.length - pos) _ [] ?_ ?_ ?_ (by simp) (by simp) (by simp) .nil
+    · simp only
+      split <;> omega
+    · intro e he
+      exact hcross e he
+    · intro p hp'
+      have h1 := hc.evc p hp' _ hAst
+      have h2 := hc.evc p hp' _ htopst
+      have h3 := hc.evb p hp'
+      unfold CompatE at h1 h2 ⊢
+      simp only
+      split <;> omega
+  · have hpl : pos = st.length := by omega
+    simp only [hp, if_false]
+    subst hpl
+    simp only [Nat.sub_self, List.drop_zero]
+    exact hc.push _ (Nat.le_refl _) hse he2
+
 theorem recoverLoop_spec {x : XTables} {inp : Input} (hw : InputWF inp) {fin : Int} {rp : List Nat} :
     ∀ (fuel : Nat) (c : XCfg) (syms : List Int) (s e : Nat) (c' : XCfg),
       SInv inp c → Core s c.stack (nodeEvs c.evs) → s ≤ e → e ≤ NOff inp c →
@@ -1063,7 +1135,99 @@ theorem recoverLoop_spec {x : XTables} {inp : Input} (hw : InputWF inp) {fin : I
           · cases h
           · simp only [Option.some.injEq] at h
             subst h
-            trace_state
-            sorry
+            refine ⟨hs1.next_ok, ?_⟩
+            show Core (NOff inp c1) _ (nodeEvs c1.evs)
+            have hcs1 : Core s c1.stack (nodeEvs c1.evs) := by rw [hst1, hev1]; exact hcs
+            rename_i _ tk htk _ pos hmatch _ below hbelow _ q hq
+            exact core_recover hcs1 _ (by split <;> omega) (by split <;> omega) pos below hbelow _ _
+
+theorem recoverFromError_spec {x : XTables} {inp : Input} (hw : InputWF inp) {fin : Int} (c c' : XCfg)
+    (hs : SInv inp c) (h : recoverFromError x inp fin c = some (some c')) : SInv inp c' := by
+  unfold recoverFromError at h
+  simp only at h
+  split at h
+  · cases h
+  · cases h
+  · obtain ⟨hs1, hN, htk, _⟩ := fetch_spec (inp := inp) hs
+    refine recoverLoop_spec hw _ _ _ _ _ _ hs1 ?_ (Nat.le_refl _) ?_ h
+    · have : (c.fetch inp).2.off = NOff inp (c.fetch inp).1 := by rw [hN, htk]; rfl
+      rw [this]; exact hs1.core
+    · have : (c.fetch inp).2.off = NOff inp (c.fetch inp).1 := by rw [hN, htk]; rfl
+      rw [this]; exact Nat.le_refl _
+
+/-! ### the loop -/
+
+def StepOK (inp : Input) : XStep → Prop
+  | .cont c => SInv inp c
+  | .done _ c => EInv inp c
+
+theorem sinv_errPrelude {inp : Input} {c : XCfg} (h : SInv inp c) : SInv inp (errPrelude inp c) := by
+  unfold errPrelude
+  split
+  · have := (fetch_spec (inp := inp) h).1
+    exact ⟨this.next_ok, this.core⟩
+  · exact h
+
+theorem onError_ok {x : XTables} {inp : Input} (hw : InputWF inp) (fin : Int) (stop : Bool) {c : XCfg}
+    (h : SInv inp c) : StepOK inp (onError x inp fin stop c) := by
+  cases hr : x.recovering
+  · rw [onError_eq_norec inp fin stop c hr]
+    exact (fetch_spec (inp := inp) h).1.einv hw
+  · rw [onError_eq_rec inp fin stop c hr]
+    have h1 := sinv_errPrelude (inp := inp) h
+    have h2 : SInv inp { errPrelude inp c with recovering := 4 } := ⟨h1.next_ok, h1.core⟩
+    split
+    · exact h1.einv hw
+    · split
+      · exact h2.einv hw
+      · exact h2.einv hw
+      · next c3 hrec => exact recoverFromError_spec hw _ _ h2 hrec
+
+theorem xstep_ok {x : XTables} (hx : XWF x) {inp : Input} (hw : InputWF inp) (fin : Int) (stop : Bool)
+    (k : Nat) {c : XCfg} (h : SInv inp c) : StepOK inp (xstep x inp fin stop k c) := by
+  rw [xstep_pre]
+  have := xpre_ok hx hw h k
+  cases hp : xpre x inp k c with
+  | cont c' => rw [hp] at this; exact this
+  | done r c' => rw [hp] at this; exact this
+  | err c' => rw [hp] at this; exact onError_ok hw fin stop this
+
+theorem xrunLoop_ok {x : XTables} (hx : XWF x) {inp : Input} (hw : InputWF inp) (fin : Int) (stop : Bool)
+    (k : Nat) : ∀ (fuel : Nat) (c : XCfg), SInv inp c → EInv inp (xrunLoop x inp fin stop k fuel c).2 := by
+  intro fuel
+  induction fuel with
+  | zero => intro c h; exact h.einv hw
+  | succ n ih =>
+    intro c h
+    unfold xrunLoop
+    split
+    · exact h.einv hw
+    · have := xstep_ok hx hw fin stop k h
+      split
+      · next c' hc' => rw [hc'] at this; exact ih c' this
+      · next r c' hc' => rw [hc'] at this; exact this
+
+theorem einv_wellNested {inp : Input} {c : XCfg} (h : EInv inp c) :
+    WellNested inp.endOff (listenerStream c) := by
+  obtain ⟨N, hN, hev⟩ := h
+  unfold listenerStream
+  rw [nodeEvs_reverse]
+  refine ⟨?_, ?_⟩
+  · intro e he
+    have := hev.evb e (List.mem_reverse.1 he)
+    omega
+  · rw [List.pairwise_reverse]
+    exact hev.pw
+
+/-- Every run of the extended runtime model — any fuel, with or without error recovery, cancelled or
+not — reports a well-nested listener stream, for tables whose reports are listed inner first and
+tokens in source order. -/
+theorem xrun_wellNested {x : XTables} (hx : XWF x) {inp : Input} (hw : InputWF inp) (input : Nat)
+    (stop : Bool) (cancelAt fuel : Nat) :
+    WellNested inp.endOff (listenerStream (xrun x inp input stop cancelAt fuel).2) := by
+  unfold xrun
+  split
+  · exact einv_wellNested ((sinv_init inp _).einv hw)
+  · exact einv_wellNested (xrunLoop_ok hx hw _ stop cancelAt fuel _ (sinv_init inp _))
 
 end TmVerif.EventNesting
